@@ -486,6 +486,24 @@ func isRangeOverAcquired(recv ssa.Value, acq VMatch) bool {
 func rulePartialOutputs(p *Prog, r *Report, rule string) {
 	r.Begin(rule, "E-ORD", "partial outputs are removed on failure: createFrom drops the table on every error exit, the compaction builder defers cleanup, compactionTransact reverts on the exit panic, a discarded transaction removes its tables before giving up the lock", 6)
 	defer r.End()
+	// dropping a table writer removes its file on EVERY path that reports success — also when the
+	// writer is already closed: tWriter.finish() closes the storage writer on every path, including
+	// its failures, and the cleanup of a failed finish goes through drop()
+	if fn := resolveFn(p, r, "leveldb", "(*tWriter).drop"); fn != nil {
+		r.Site(1)
+		rm := evStorageInvoke("Remove")
+		okRet := func(in ssa.Instruction) bool {
+			ret, ok := in.(*ssa.Return)
+			return ok && len(ret.Results) == 1 && isNilConst(retValue(ret, ret.Results[0]))
+		}
+		if countInstr(fn, rm) == 0 {
+			r.Fail(fnName(fn), "drop-removes-file:unresolved-anchor", "tWriter.drop removes the table file", "no Storage.Remove call", p.Pos(fn.Pos()), nil)
+		} else if w := findPath(entryPoint(fn), nil, rm, okRet); w != nil {
+			r.Fail(fnName(fn), "drop-removes-file", "tWriter.drop reports success only after removing the table file", "a path returns nil without stor.Remove(w.fd): the output of a failed finish (Sync / footer write error) stays on storage unreferenced until the next Open", p.posOfLast(w, okRet), p.renderPath(w))
+		} else {
+			r.OK(fnName(fn), "drop-removes-file", "tWriter.drop reports success only after removing the table file")
+		}
+	}
 	// the compaction builder forgets its current output writer only once the table is finished: the
 	// deferred cleanup() can drop a half-written table only through b.tw
 	if fn := resolveFn(p, r, "leveldb", "(*tableCompactionBuilder).flush"); fn != nil {
